@@ -31,6 +31,30 @@ theorem C03_table_order :
   ⟨table_add_order, table_remove_order, table_remove_variable_first, table_update_data_checks,
    table_add_surrogate_checks, table_update_surrogate_checks, table_make_parameter_dynamic_checks⟩
 
+/-- the public mutators found in the source are exactly the thirty the model has an `Op` for -/
+theorem C03_table_mutators :
+    Gen.Mut.all = [.add_parameter, .add_parameters, .remove_parameter, .remove_parameters, .update_parameter,
+      .update_parameters, .scale_parameter, .scale_parameters, .make_parameter_dynamic, .add_variable,
+      .add_variables, .remove_variable, .remove_variables, .update_variable, .update_variables,
+      .make_variable_static, .add_derived, .update_derived, .remove_derived, .add_reaction, .update_reaction,
+      .remove_reaction, .add_readout, .remove_readout, .add_surrogate, .update_surrogate, .remove_surrogate,
+      .add_data, .update_data, .remove_data] := rfl
+
+/-- the composite and plural forms call exactly the public mutators the model composes them from
+    (so the decorators of the callees are the ones that act) -/
+theorem C03_table_delegates :
+    (Gen.delegates .add_parameters).eraseDups = [.add_parameter] ∧
+    (Gen.delegates .remove_parameters).eraseDups = [.remove_parameter] ∧
+    (Gen.delegates .update_parameters).eraseDups = [.update_parameter] ∧
+    (Gen.delegates .scale_parameters).eraseDups = [.scale_parameter] ∧
+    (Gen.delegates .add_variables).eraseDups = [.add_variable] ∧
+    (Gen.delegates .remove_variables).eraseDups = [.remove_variable] ∧
+    (Gen.delegates .update_variables).eraseDups = [.update_variable] ∧
+    (Gen.delegates .scale_parameter).eraseDups = [.update_parameter] ∧
+    Gen.delegates .make_parameter_dynamic = [.remove_parameter, .add_variable] ∧
+    Gen.delegates .make_variable_static = [.remove_variable, .add_derived, .add_parameter] := by
+  decide
+
 /-! ## the cache is never stale -/
 
 /-- After ANY history of mutators and queries the cache is empty or is exactly what `_create_cache` builds
